@@ -273,4 +273,6 @@ func checkMintPair(r *Run, rule string) {
 	r.Check(sendAmt == wantAmt, rule, "mint/forwards-award-amount", P.InstrPos(s), sendAmt, "forwarded amount is "+sendAmt+" ; required "+wantAmt)
 	r.Check(argTerm(st, 3).String() == "param:address", rule, "mint/recipient", P.InstrPos(s), "recipient is the award address", "recipient is "+argTerm(st, 3).String()+" ; required param:address")
 	r.requireAtoms(rule, "mint/forward", s, P.Guards(s, 0), []req{{"mint-succeeded", `^isnil\(x/pos/types\.AuthKeeper\.MintCoins\(`}})
+	// and conversely: whatever was minted into the pool is always forwarded (nothing may stay behind in the pool)
+	r.mustFollowEdge(rule, "mint/minted=>forwarded", f, `^isnil\(x/pos/types\.AuthKeeper\.MintCoins\(`, func(in ssa.Instruction) bool { return in == ssa.Instruction(s) }, nil, "SendCoinsFromModuleToAccount (the award would stay in the staked pool, unbacked by any stake)")
 }
